@@ -21,7 +21,9 @@ META = {
         "merged for non-200 responses, for flows the proxy injected itself or when an addon handled the response. "
         "MITMProxyEventManager._handle_request (quick: EventQueueGet branch; thorough: every branch): the replay cache is consulted at most "
         "once, under the ack the request carries; a hit is answered with a synthetic 200 made from exactly the cached payload, a miss "
-        "makes no synthetic response. "
+        "makes no synthetic response. BaseClientSession.register_region (what region-announcing events end in): a region already known "
+        "under that circuit address - with or without a circuit - is returned and nothing is created; otherwise exactly one new region is "
+        "created, appended and returned. "
         "B (bounded): whole poll histories against a reference queue (delivery exactly once and in order, undef when emptied, replay of a "
         "repeated poll, non-200 responses, region registration from events)."),
     "trusted_base": [
